@@ -37,6 +37,7 @@ CONSTANTS Users,        \* abstract user names, e.g. {"u1","u2","u3"}
           DEV_UnsetWantTakesGiven,  \* un-self-ban copies given (incl. O) into want
           DEV_BannedUpdateApplied,
           \* ^ a banned user's {sub}/{set} stores the new want, then is answered 403
+          DEV_ChanReaderMarksNotCached, \* channel readers' marks are not kept in the live topic: stale notes are applied
           DEV_ReadNoteRecvNotStored, \* {note read} past the recv mark raises recv in the live topic but stores ReadSeqId only
           DEV_OfflineSetSubBypassesCache, \* a detached user's {set sub} is written to the store behind a loaded topic's back
           DEV_AdminSelfRaise        \* placeholder for seeded variants; FALSE = as pinned
@@ -47,7 +48,7 @@ M(tp) == ToSet(tp)
 Eff(r) == M(r.want) \cap M(r.given)
 
 NoSub    == [st |-> "none", want |-> <<>>, given |-> <<>>, read |-> 0, recv |-> 0, delId |-> 0]
-NoTopic  == [exists |-> FALSE, seq |-> 0, delId |-> 0, owner |-> "", auth |-> <<>>, anon |-> <<>>, public |-> "null"]
+NoTopic  == [exists |-> FALSE, ischan |-> FALSE, seq |-> 0, delId |-> 0, owner |-> "", auth |-> <<>>, anon |-> <<>>, public |-> "null"]
 Unloaded == [loaded |-> FALSE]
 NoPer    == [in |-> FALSE, want |-> <<>>, given |-> <<>>, read |-> 0, recv |-> 0, delId |-> 0,
              online |-> 0, deleted |-> FALSE, ischan |-> FALSE]
@@ -55,6 +56,7 @@ NoPer    == [in |-> FALSE, want |-> <<>>, given |-> <<>>, read |-> 0, recv |-> 0
 InitState ==
   [topics |-> [t \in Topics |-> NoTopic],
    subs   |-> [t \in Topics |-> [u \in Users |-> NoSub]],
+   csubs  |-> [t \in Topics |-> [u \in Users |-> NoSub]],      \* channel readers' rows (stored under the chnXXX spelling)
    msgs   |-> [t \in Topics |-> <<>>],
    dlog   |-> [t \in Topics |-> <<>>],
    cache  |-> [t \in Topics |-> Unloaded],
@@ -85,7 +87,7 @@ LoadedOwner(S, t) ==
 
 \* initTopicGrp + loadSubscribers
 LoadedCache(S, t) ==
-  [loaded |-> TRUE, last |-> S.topics[t].seq, del |-> S.topics[t].delId, owner |-> LoadedOwner(S, t),
+  [loaded |-> TRUE, ischan |-> S.topics[t].ischan, last |-> S.topics[t].seq, del |-> S.topics[t].delId, owner |-> LoadedOwner(S, t),
    auth |-> S.topics[t].auth, anon |-> S.topics[t].anon,
    per |-> [u \in Users |-> IF S.subs[t][u].st = "live"
                               THEN [NoPer EXCEPT !.in = TRUE, !.want = S.subs[t][u].want, !.given = S.subs[t][u].given,
@@ -103,9 +105,11 @@ Detach(S, t, s) ==
       u == SessUser[s]
       isAtt == s \in AttSess(c) IN
   IF ~isAtt THEN S ELSE
-  [S EXCEPT !.cache[t].att = AttTuple({x \in M(c.att) : x.s # s}),
-            !.cache[t].per[u].online = IF c.per[u].in THEN @ - 1 ELSE @,
-            !.sess[s].subs = SubsTuple(M(@) \ {t})]
+  LET S1 == [S EXCEPT !.cache[t].att = AttTuple({x \in M(c.att) : x.s # s}),
+                      !.cache[t].per[u].online = IF c.per[u].in THEN @ - 1 ELSE @,
+                      !.sess[s].subs = SubsTuple(M(@) \ {t})]
+  IN \* channel readers are not kept in the live topic once their last session has left
+     IF c.per[u].in /\ c.per[u].ischan /\ S1.cache[t].per[u].online = 0 THEN [S1 EXCEPT !.cache[t].per[u] = NoPer] ELSE S1
 
 \* evictUser(uid, unsub): detach all sessions of u; unsub => forget the user, else online := 0
 Evict(S, t, u, unsub) ==
@@ -113,6 +117,7 @@ Evict(S, t, u, unsub) ==
       mine == {x \in M(c.att) : x.u = u} IN
   [S EXCEPT !.cache[t].att = AttTuple(M(c.att) \ mine),
             !.cache[t].per[u] = IF unsub THEN (IF IsP2P(t) THEN (IF c.per[u].in THEN [@ EXCEPT !.online = 0, !.deleted = TRUE] ELSE @) ELSE NoPer)
+                                ELSE IF c.per[u].in /\ c.per[u].ischan THEN NoPer
                                 ELSE IF c.per[u].in THEN [@ EXCEPT !.online = 0] ELSE @,
             !.sess = [s \in Sessions |-> IF \E x \in mine : x.s = s
                                           THEN [S.sess[s] EXCEPT !.subs = SubsTuple(M(@) \ {t})]
@@ -122,11 +127,17 @@ Evict(S, t, u, unsub) ==
 DeleteTopic(S, t) ==
   [S EXCEPT !.topics[t] = NoTopic,
             !.subs[t] = [u \in Users |-> NoSub],
+            !.csubs[t] = [u \in Users |-> NoSub],
             !.msgs[t] = <<>>,
             !.dlog[t] = <<>>,
             !.cache[t] = Unloaded,
             !.sess = [x \in Sessions |-> [S.sess[x] EXCEPT !.subs = SubsTuple(M(@) \ {t})]]]
 
+AttachC(S, t, s, ch) ==
+  LET u == SessUser[s] IN
+  [S EXCEPT !.cache[t].att = AttTuple(M(@) \cup {[s |-> s, u |-> u, chan |-> ch]}),
+            !.cache[t].per[u].online = @ + 1,
+            !.sess[s].subs = SubsTuple(M(@) \cup {t})]
 Attach(S, t, s) ==
   LET u == SessUser[s] IN
   [S EXCEPT !.cache[t].att = AttTuple(M(@) \cup {[s |-> s, u |-> u, chan |-> FALSE]}),
@@ -145,11 +156,12 @@ NewGrpStep(S, a) ==
       pm == IF a.mode = <<"-">> THEN [ok |-> TRUE, m |-> Unset] ELSE Parse(a.mode)
       want == IF a.mode = <<"-">> \/ ~pm.ok \/ pm.m = Unset THEN CFull ELSE Mask(pm.m) \cup {"J", "O"}
       row == [st |-> "live", want |-> T(want), given |-> T(CFull), read |-> 0, recv |-> 0, delId |-> 0]
-      S1 == [S EXCEPT !.topics[t] = [exists |-> TRUE, seq |-> 0, delId |-> 0, owner |-> u,
-                                    auth |-> T(GrpDefaultAuth), anon |-> T(GrpDefaultAnon), public |-> PublicText(t)],
+      defAuth == IF a.chan THEN CChnWriter ELSE GrpDefaultAuth          \* getDefaultAccess(grp, auth, isChan)
+      S1 == [S EXCEPT !.topics[t] = [exists |-> TRUE, ischan |-> a.chan, seq |-> 0, delId |-> 0, owner |-> u,
+                                    auth |-> T(defAuth), anon |-> T(GrpDefaultAnon), public |-> PublicText(t)],
                       !.subs[t][u] = row,
-                      !.cache[t] = [loaded |-> TRUE, last |-> 0, del |-> 0, owner |-> u,
-                                    auth |-> T(GrpDefaultAuth), anon |-> T(GrpDefaultAnon),
+                      !.cache[t] = [loaded |-> TRUE, ischan |-> a.chan, last |-> 0, del |-> 0, owner |-> u,
+                                    auth |-> T(defAuth), anon |-> T(GrpDefaultAnon),
                                     per |-> [v \in Users |-> IF v = u THEN [NoPer EXCEPT !.in = TRUE, !.want = T(want), !.given = T(CFull)]
                                                               ELSE NoPer],
                                     att |-> <<>>]]
@@ -233,7 +245,7 @@ FreshRow(want, given) == [st |-> "live", want |-> T(want), given |-> T(given), r
 P2PLoad(S, t, u, modeTxt) ==
   LET live == LiveP2P(S, t)
       exists == S.topics[t].exists
-      base == [loaded |-> TRUE, last |-> S.topics[t].seq, del |-> S.topics[t].delId, owner |-> "", auth |-> <<>>, anon |-> <<>>,
+      base == [loaded |-> TRUE, ischan |-> FALSE, last |-> S.topics[t].seq, del |-> S.topics[t].delId, owner |-> "", auth |-> <<>>, anon |-> <<>>,
                per |-> [v \in Users |-> NoPer], att |-> <<>>]
   IN
   IF exists /\ Cardinality(live) = 2 THEN
@@ -298,10 +310,35 @@ P2PSubStep(S, a) ==
                ELSE IF joined THEN Reply(Attach(r.st, t, s), 200)
                ELSE Reply(r.st, 200)
 
+\* ---------------------------------------------------------------- {sub topic="chnXXX"}: a reader joins a channel-enabled group
+ChanSubStep(S, a) ==
+  LET t == a.t  s == a.s  u == SessUser[s] IN
+  IF t \in M(S.sess[s].subs) THEN Reply(S, 304)
+  ELSE IF ~S.topics[t].exists THEN Reply(S, 404)
+  ELSE LET S0 == Load(S, t)
+           c == S0.cache[t]
+           pud == c.per[u]
+           pm == IF a.mode = <<"-">> THEN [ok |-> TRUE, m |-> Unset] ELSE Parse(a.mode)
+           mw == IF pm.m = Unset THEN Unset ELSE Mask(pm.m)
+       IN IF ~c.ischan THEN Reply(S0, 404)                                  \* verifyChannelAccess: not a channel
+          ELSE IF ~pm.ok THEN Reply(S0, 400)
+          ELSE IF pud.in /\ ~pud.ischan THEN Reply(S0, 303)                 \* a full subscriber must use the grpXXX name
+          ELSE IF pud.in THEN (IF mw = Unset THEN Reply(AttachC(S0, t, s, TRUE), 200) ELSE Reply(S0, -1))
+          ELSE LET row == S0.csubs[t][u]
+                   oldWant == IF row.st = "live" THEN M(row.want) ELSE CChnReader
+                   want == IF mw = Unset THEN oldWant ELSE (mw \cap CChnReader) \cup {"R", "J"}
+                   S1 == [S0 EXCEPT !.csubs[t][u] = IF row.st # "live" THEN FreshRow(want, CChnReader)
+                                                     ELSE IF want # oldWant THEN [row EXCEPT !.want = T(want)] ELSE row,
+                                    !.cache[t].per[u] = [NoPer EXCEPT !.in = TRUE, !.want = T(want), !.given = T(CChnReader), !.ischan = TRUE]]
+               IN Reply(AttachC(S1, t, s, TRUE), 200)
+
 \* ---------------------------------------------------------------- Sub  ({sub} to an existing group topic)
 SubStep(S, a) ==
   LET t == a.t  s == a.s  u == SessUser[s] IN
   IF IsP2P(t) THEN P2PSubStep(S, a)
+  ELSE IF a.chan THEN ChanSubStep(S, a)
+  ELSE IF t \notin M(S.sess[s].subs) /\ S.cache[t].loaded /\ S.cache[t].per[u].in /\ S.cache[t].per[u].ischan
+       THEN Reply(S, 303)            \* a cached channel READER addressing the topic as a member: "use other" (the chnXXX name)
   ELSE IF t \in M(S.sess[s].subs) THEN Reply(S, 304)                     \* session.subscribe: already subscribed
   ELSE IF ~S.topics[t].exists THEN Reply(S, 404)                     \* topicInit: ErrTopicNotFound
   ELSE LET S0 == Load(S, t)
@@ -313,10 +350,22 @@ SubStep(S, a) ==
           ELSE Reply(r.st, 200)
 
 \* ---------------------------------------------------------------- Leave / LeaveUnsub
+AttChan(c, s) == \E x \in AttOf(c) : x.s = s /\ x.chan
 LeaveStep(S, a) ==
-  LET t == a.t  s == a.s  u == SessUser[s]  c == S.cache[t] IN
+  LET t == a.t  s == a.s  u == SessUser[s]  c == S.cache[t]
+      asChan == a.chan /\ c.loaded /\ c.ischan IN
   IF t \notin M(S.sess[s].subs) THEN (IF a.unsub THEN Reply(S, 409) ELSE Reply(S, 304))
-  ELSE IF ~a.unsub THEN Reply(Detach(S, t, s), 200)
+  ELSE IF a.chan /\ ~c.ischan THEN Reply(S, -1)                        \* channel addressing of a plain group: replies 404 and goes on; not modelled
+  ELSE IF ~a.unsub THEN
+       (IF AttChan(c, s) # asChan
+        \* addressed with the wrong spelling: the session is removed and answered 404, the online counter is left as it was
+        THEN Reply([S EXCEPT !.cache[t].att = AttTuple({x \in M(c.att) : x.s # s}), !.sess[s].subs = SubsTuple(M(@) \ {t})], 404)
+        ELSE Reply(Detach(S, t, s), 200))
+  ELSE IF asChan /\ c.per[u].in /\ c.per[u].ischan THEN
+       \* a reader unsubscribes from the channel: the chnXXX row is soft-deleted, the reader forgotten
+       (IF S.csubs[t][u].st # "live" THEN Reply(S, 304)
+        ELSE Reply(Evict([S EXCEPT !.csubs[t][u].st = "del"], t, u, TRUE), 200))
+  ELSE IF asChan # (c.per[u].in /\ c.per[u].ischan) THEN Reply(S, -1)
   ELSE IF ~IsP2P(t) /\ c.owner = u THEN Reply(S, 403)               \* owner cannot unsubscribe
   ELSE IF S.subs[t][u].st # "live" THEN Reply(S, 304)               \* ErrNotFound from the store: InfoNoAction
   ELSE LET S1 == Evict(UnsubRow(S, t, u), t, u, TRUE) IN
@@ -345,6 +394,7 @@ SetSelfStep(S, a) ==
                  S2 == IF S.cache[t].loaded /\ ~DEV_OfflineSetSubBypassesCache /\ S.cache[t].per[u].in
                        THEN [S1 EXCEPT !.cache[t].per[u].want = T(mw)] ELSE S1
              IN Reply(S2, 200)
+  ELSE IF S.cache[t].per[u].in /\ S.cache[t].per[u].ischan THEN Reply(S, 303)     \* a channel reader using the grpXXX name: "use other"
   ELSE LET before == S.cache[t].per[u]
            r == ThisUserSub(S, t, u, a.mode)
            after == r.st.cache[t].per[u]
@@ -357,6 +407,7 @@ SetOtherStep(S, a) ==
   LET t == a.t  s == a.s  u == SessUser[s]  x == a.u  c == S.cache[t] IN
   IF IsP2P(t) THEN Reply(S, -1)                               \* {set sub user=X} on p2p topics: judged by the monitors only
   ELSE IF t \notin M(S.sess[s].subs) THEN Reply(S, -1)
+  ELSE IF c.per[x].in /\ c.per[x].ischan THEN Reply(S, -1)      \* target is a cached channel reader: not modelled
   ELSE IF x = u THEN SetSelfStep(S, a)
   ELSE
   LET host == c.per[u]
@@ -460,7 +511,7 @@ PubStep(S, a) ==
                            !.cache[t].last = n,
                            !.cache[t].per[u].read = IF reader THEN n ELSE @,
                            !.cache[t].per[u].recv = IF reader THEN n ELSE @]
-           dataTo == {x.s : x \in {y \in M(c.att) : "R" \in Eff(c.per[y.u])}} \ (IF a.noecho THEN {s} ELSE {})
+           dataTo == {x.s : x \in {y \in M(c.att) : y.chan \/ "R" \in Eff(c.per[y.u])}} \ (IF a.noecho THEN {s} ELSE {})
            pushTo == {v \in Users : c.per[v].in /\ {"P", "R"} \subseteq Eff(c.per[v]) /\ ~c.per[v].deleted /\ ~c.per[v].ischan}
        IN [st |-> S1, out |-> [code |-> 202, dataTo |-> dataTo, pushTo |-> pushTo, seq |-> n]]
 
@@ -493,9 +544,19 @@ DelMsgStep(S, a) ==
 \* ---------------------------------------------------------------- {note what=read|recv seq=N}
 NoteStep(S, a) ==
   LET t == a.t  s == a.s  u == SessUser[s]  c == S.cache[t] IN
+  IF a.chan THEN
+     \* channel reader: the mark is written to the chnXXX row; the live topic does not keep readers' marks
+     \* (DEV_ChanReaderMarksNotCached: so every note looks new and a stale one LOWERS the stored mark)
+     (IF ~c.loaded \/ ~c.ischan \/ t \notin M(S.sess[s].subs) \/ ~c.per[u].in \/ ~c.per[u].ischan THEN Reply(S, -1)
+      ELSE LET n == a.seq  row == S.csubs[t][u]  seen == IF DEV_ChanReaderMarksNotCached THEN 0 ELSE (IF a.what = "read" THEN row.read ELSE row.recv) IN
+           IF a.what \notin {"read", "recv"} \/ n <= 0 \/ n > c.last \/ "R" \notin Eff(c.per[u]) \/ n <= seen THEN Reply(S, 0)
+           ELSE IF a.what = "recv" THEN Reply([S EXCEPT !.csubs[t][u].recv = n], 0)
+           ELSE Reply([S EXCEPT !.csubs[t][u].read = n,
+                                !.csubs[t][u].recv = IF DEV_ReadNoteRecvNotStored THEN @ ELSE (IF row.recv < n THEN n ELSE row.recv)], 0))
+  ELSE
   \* a detached session's {note recv} is forwarded by the hub to the loaded topic; other detached notes get 409
   IF ~c.loaded \/ (t \notin M(S.sess[s].subs) /\ a.what # "recv") THEN Reply(S, 0)
-  ELSE IF ~c.per[u].in THEN Reply(S, 0)
+  ELSE IF ~c.per[u].in \/ c.per[u].deleted THEN Reply(S, 0)          \* a removed p2p participant's notes are dropped
   ELSE LET pud == c.per[u]
            mode == Eff(pud)
            n == a.seq
@@ -517,17 +578,17 @@ UnloadStep(S, a) ==
 \* ---------------------------------------------------------------- Reload (harness composite): every attached session leaves,
 \* the idle timer unloads the topic, the same sessions subscribe again (in session order) -> the topic is rebuilt from the rows
 RECURSIVE ResubAll(_, _, _)
-ResubAll(S, t, ss) ==       \* ss: sequence of sessions
+ResubAll(S, t, ss) ==       \* ss: sequence of [s, chan]
   IF ss = <<>> THEN S
-  ELSE ResubAll(SubStep(S, [a |-> "Sub", s |-> Head(ss), t |-> t, mode |-> <<"-">>]).st, t, Tail(ss))
+  ELSE ResubAll(SubStep(S, [a |-> "Sub", s |-> Head(ss).s, t |-> t, mode |-> <<"-">>, chan |-> Head(ss).chan]).st, t, Tail(ss))
 RECURSIVE DetachAllOf(_, _, _)
-DetachAllOf(S, t, ss) == IF ss = <<>> THEN S ELSE DetachAllOf(Detach(S, t, Head(ss)), t, Tail(ss))
+DetachAllOf(S, t, ss) == IF ss = <<>> THEN S ELSE DetachAllOf(Detach(S, t, Head(ss).s), t, Tail(ss))
 
 ReloadStep(S, a) ==
   LET t == a.t  c == S.cache[t] IN
   IF ~c.loaded THEN Reply(S, 0)
   ELSE IF \E i \in DOMAIN c.att : c.att[i].s \in RootSessions THEN Reply(S, -1)    \* on-behalf-of attachments are not modelled
-  ELSE LET ss == [i \in DOMAIN c.att |-> c.att[i].s]          \* att is kept in session order
+  ELSE LET ss == [i \in DOMAIN c.att |-> [s |-> c.att[i].s, chan |-> c.att[i].chan]]          \* att is kept in session order
            S1 == DetachAllOf(S, t, ss)
            S2 == [S1 EXCEPT !.cache[t] = Unloaded]
        IN Reply(ResubAll(S2, t, ss), 0)
@@ -544,6 +605,7 @@ DisconnectStep(S, a) ==
 GetStep(S, a) == Reply(S, -2)     \* -2: the reply of an observation request is not predicted (its content is judged by the monitors)
 
 Unmodelled(a) == ("obo" \in DOMAIN a /\ a.obo # "") \/ ("t" \in DOMAIN a /\ a.t \notin Topics)
+                 \/ ("chan" \in DOMAIN a /\ a.chan /\ a.a \notin {"NewGrp", "Sub", "Leave", "Note", "Get"})
                  \/ ("s" \in DOMAIN a /\ a.s \in RootSessions)
 \* a logged pre-state in which a session lists a topic that is not loaded is outside the model (it cannot arise from Init);
 \* Step stays total: such a step is not predicted (the monitors still judge it)
